@@ -40,9 +40,18 @@ type c29Scenario struct {
 	ClockOffset int     `json:"clock_offset_s"` // simulated seconds that pass before the client starts
 	Repeat      bool    `json:"repeat,omitempty"`     // extension types may occur more than once in the configured list
 	Resuite     bool    `json:"resuite,omitempty"`    // before a second connection the same fingerprint object gets another suite list of the same length
-	Net         NetCfg  `json:"net"`
-	Tape        []int   `json:"tape,omitempty"`
+	// Warm (with CacheMode 1): before the fingerprinted connection an ordinary TLS 1.2 connection under this suite fills
+	// the fingerprint's session cache, so that an autopopulated session_ticket extension has a ticket to carry.
+	// RandSID = ClientFingerprintConfiguration.RandomSessionID (a fresh session id of that length accompanies a cached ticket).
+	Warm    uint16 `json:"warm,omitempty"`
+	RandSID int    `json:"rand_sid,omitempty"`
+	Net     NetCfg `json:"net"`
+	Tape    []int  `json:"tape,omitempty"`
+
+	cachedTicket []byte // set by execC29 after the warm-up
 }
+
+var fpWarmSuites = []uint16{0x002f, 0x0035, 0x003c, 0x009c, 0x009d, 0xc013, 0xc014, 0xc027, 0xc02f, 0xc030, 0xcca8}
 
 var fpImplementedSuites = []uint16{0x002f, 0x0035, 0x003c, 0x003d, 0x009c, 0x009d, 0x0005, 0x000a, 0x0033, 0x0039, 0x0067, 0x006b, 0x009e, 0x009f,
 	0xc009, 0xc00a, 0xc013, 0xc014, 0xc023, 0xc027, 0xc02b, 0xc02c, 0xc02f, 0xc030, 0xcca8, 0xcca9, 0xc011, 0xc012, 0xc007, 0x0016}
@@ -129,6 +138,29 @@ func genC29(seed uint64, tier string) any {
 	}
 	sc.CacheMode = r.Pick([]int{3, 1, 1})
 	sc.Resuite = r.Chance(1, 5)
+	if sc.CacheMode == 1 && r.Chance(1, 2) {
+		if !used["ticket"] {
+			sc.Exts = append(sc.Exts, fpExt{})
+			at := r.Intn(len(sc.Exts))
+			copy(sc.Exts[at+1:], sc.Exts[at:])
+			sc.Exts[at] = fpExt{Kind: "ticket_auto"}
+		}
+		sc.Warm = 0xc02f
+		var common []uint16
+		for _, a := range sc.Suites {
+			for _, b := range fpWarmSuites {
+				if a == b {
+					common = append(common, a)
+				}
+			}
+		}
+		if len(common) > 0 && !r.Chance(1, 6) {
+			sc.Warm = common[r.Intn(len(common))]
+		}
+		if r.Chance(1, 3) {
+			sc.RandSID = []int{2, 16, 32}[r.Intn(3)] // (the simulated entropy source does not log one-byte reads)
+		}
+	}
 	sc.ClockOffset = []int{0, 1, 3600, 86400 * 365 * 5, 86400 * 365 * 30}[r.Intn(5)]
 	sc.Net = genNet(r)
 	return sc
@@ -156,6 +188,12 @@ func dnsNameOfLen(n int) string {
 }
 
 type fixedCacheKey struct{}
+
+// rekeyedCache stores whatever an ordinary client puts under the fingerprint's fixed cache key.
+type rekeyedCache struct{ inner tls.ClientSessionCache }
+
+func (c rekeyedCache) Get(string) (*tls.ClientSessionState, bool) { return c.inner.Get(fixedCacheKey{}.Key(nil)) }
+func (c rekeyedCache) Put(_ string, st *tls.ClientSessionState)   { c.inner.Put(fixedCacheKey{}.Key(nil), st) }
 
 func (fixedCacheKey) Key(net.Addr) string { return "fp-cache-key" }
 
@@ -280,7 +318,30 @@ func execC29(t *testing.T, scAny any, keepLog bool) *Outcome {
 			ccfg.ClientSessionCache = tls.NewLRUClientSessionCache(4)
 			o.count("probe.config_session_cache", 1)
 		}
+		fp.RandomSessionID = sc.RandSID
 		s.MaxTime = 40 * 366 * 24 * time.Hour
+		if sc.Warm != 0 && sc.CacheMode == 1 {
+			// an ordinary connection of the same application to the same server, sharing the fingerprint's session cache
+			wcfg := &tls.Config{RootCAs: pki().RootPool, ServerName: serverName, Rand: kit.NewReader(run.R.Derive("warm-rand")), Time: s.Now,
+				MinVersion: vTLS12, MaxVersion: vTLS12, CipherSuites: []uint16{sc.Warm}, ClientSessionCache: rekeyedCache{fp.SessionCache}}
+			cn, sn := s.Pipe("cw", "sw", sc.Net.params(), sc.Net.params())
+			wc, ws := tls.Client(cn, wcfg), tls.Server(sn, scfg)
+			s.Go("clientw", func() {
+				wc.SetDeadline(s.Now().Add(20 * time.Second))
+				wc.Handshake()
+				wc.Close()
+			})
+			s.Go("serverw", func() {
+				ws.SetDeadline(s.Now().Add(20 * time.Second))
+				ws.Handshake()
+				ws.Close()
+			})
+			s.Run()
+			if st, ok := fp.SessionCache.Get(fixedCacheKey{}.Key(nil)); ok && st != nil {
+				sc.cachedTicket = tls.VerifSessionTicket(st)
+				o.count("probe.fingerprint_cache_holds_session", 1)
+			}
+		}
 		connect := func(label string, ccfg *tls.Config, csc *c29Scenario) {
 			cn, sn := s.Pipe("c"+label, "s"+label, sc.Net.params(), sc.Net.params())
 			client := tls.Client(cn, ccfg)
@@ -387,8 +448,11 @@ func c29Check(sc *c29Scenario, cn *kit.Conn, server *tls.Conn, crand *kit.Reader
 			return Failf("c29.random", "client random bytes were not drawn from the configured entropy source", "wire %x", fresh)
 		}
 	}
-	if !bytes.Equal(ch.SessionID, sc.SessionID) {
-		return Failf("c29.sessionid", "session id on the wire differs from the configured one", "wire %x configured %x", ch.SessionID, sc.SessionID)
+	freshSID := sc.RandSID > 0 && sc.cachedTicket != nil && len(ch.SessionID) == sc.RandSID && bytes.Contains(crand.Log, ch.SessionID)
+	if freshSID {
+		o.count("probe.fresh_session_id_with_cached_ticket", 1)
+	} else if !bytes.Equal(ch.SessionID, sc.SessionID) {
+		return Failf("c29.sessionid", "session id on the wire differs from the configured one", "wire %x configured %x (RandomSessionID %d, cached ticket %d bytes)", ch.SessionID, sc.SessionID, sc.RandSID, len(sc.cachedTicket))
 	}
 	if len(ch.Suites) != len(sc.Suites) {
 		return Failf("c29.suites", "cipher suite list on the wire differs from the configured one", "wire %04x configured %04x", ch.Suites, sc.Suites)
@@ -401,17 +465,25 @@ func c29Check(sc *c29Scenario, cn *kit.Conn, server *tls.Conn, crand *kit.Reader
 	if !bytes.Equal(ch.Compression, []byte{0}) {
 		return Failf("c29.compression", "compression methods on the wire differ from the configured ones", "wire %x", ch.Compression)
 	}
-	var want, wantAlt []byte
+	var want, wantAlt, wantCached []byte
 	for _, e := range sc.Exts {
 		x := refExt(e, sc.ServerName)
 		want = append(want, x...)
+		y := x
 		if e.Kind == "ticket_auto" {
 			// no cached session: an autopopulated ticket extension is either dropped or sent empty (advertising support)
-			x = []byte{0, 35, 0, 0}
+			y = []byte{0, 35, 0, 0}
 		}
-		wantAlt = append(wantAlt, x...)
+		wantAlt = append(wantAlt, y...)
+		if (e.Kind == "ticket_auto" || e.Kind == "ticket_auto_preset") && sc.cachedTicket != nil {
+			// a cached session the fingerprint may use: the extension carries its ticket
+			x = append([]byte{0, 35, byte(len(sc.cachedTicket) >> 8), byte(len(sc.cachedTicket))}, sc.cachedTicket...)
+		}
+		wantCached = append(wantCached, x...)
 	}
-	if !bytes.Equal(ch.ExtBlock, want) && !bytes.Equal(ch.ExtBlock, wantAlt) {
+	if sc.cachedTicket != nil && bytes.Equal(ch.ExtBlock, wantCached) && !bytes.Equal(want, wantCached) {
+		o.count("probe.cached_ticket_on_the_wire", 1)
+	} else if !bytes.Equal(ch.ExtBlock, want) && !bytes.Equal(ch.ExtBlock, wantAlt) {
 		return Failf("c29.extensions", "extension block on the wire is not the concatenation of the configured extensions", "wire %x\nwant %x\nconfigured %+v", ch.ExtBlock, want, sc.Exts)
 	}
 	o.count("probe.extension_block_compared", 1)
@@ -432,7 +504,7 @@ func c29Check(sc *c29Scenario, cn *kit.Conn, server *tls.Conn, crand *kit.Reader
 	}
 	lch := sl.ClientHello
 	o.count("probe.server_readback_compared", 1)
-	if uint16(lch.Version) != sc.Version || !bytes.Equal(lch.Random, ch.Random) || !bytes.Equal(lch.SessionID, sc.SessionID) || len(lch.CipherSuites) != len(sc.Suites) {
+	if uint16(lch.Version) != sc.Version || !bytes.Equal(lch.Random, ch.Random) || !bytes.Equal(lch.SessionID, ch.SessionID) || len(lch.CipherSuites) != len(sc.Suites) {
 		return Failf("c29.readback", "server-side parse of the hello differs from the configuration", "version %04x session id %x suites %v", uint16(lch.Version), lch.SessionID, lch.CipherSuites)
 	}
 	for _, e := range sc.Exts {
